@@ -264,6 +264,33 @@ theorem hintChans_path (target : Nat) : ∀ (h : HopHint) (hs : List HopHint),
     simp only [hintChans, ChansPath, List.map_cons, Option.isSome_some]
     exact ⟨by simp [i1], by rw [i2]; rfl, by rw [i3]; rfl⟩
 
+/-- hint chains between blinded hops are connected … -/
+theorem zeroChans_path : ∀ (id a : Nat) (rest : List Nat) (l : Nat),
+    (a :: rest).getLast? = some l → ChansPath a l (zeroChans id (a :: rest))
+  | id, a, [], l, h => by
+    simp at h
+    simp [zeroChans, ChansPath, h]
+  | id, a, b :: rest, l, h => by
+    have h' : (b :: rest).getLast? = some l := by simpa [List.getLast?_cons_cons] using h
+    have ih := zeroChans_path (id + 1) b rest l h'
+    simp [zeroChans, ChansPath, ih]
+
+/-- A blinded path is a connected hint chain from the introduction node to its
+    last node whose FIRST edge carries the aggregate policy, including both the
+    minimum and the maximum HTLC of the blinded portion. -/
+theorem blindedChans_path (id : Nat) (hasMax : Bool) (agg : BlindedAgg) (a b : Nat)
+    (rest : List Nat) (l : Nat) (h : (b :: rest).getLast? = some l) :
+    ChansPath a l (blindedChans id hasMax agg (a :: b :: rest)) ∧
+    (blindedChans id hasMax agg (a :: b :: rest)).head?.bind (·.p1) =
+      some ⟨agg.min, agg.max, hasMax, agg.base, agg.rate, agg.delta, false, 0, 0⟩ := by
+  have ih := zeroChans_path (id + 1) b rest l h
+  simp [blindedChans, ChansPath, ih]
+
+/-- with the flag set, the executable checker rejects an amount above the
+    blinded maximum on the aggregate edge (and accepts it at the maximum). -/
+example : amtFits ⟨0, 1000, true, 0, 0, 40, false, 0, 0⟩ fakeHopHintCap 1001 = false ∧
+    amtFits ⟨0, 1000, true, 0, 0, 40, false, 0, 0⟩ fakeHopHintCap 1000 = true := by decide
+
 /-! ### Non-vacuity -/
 
 /-- A three-node line `0 —1→ 1 —2→ 2` where node 1 charges 1000 msat + 1 %, with a
